@@ -22,6 +22,9 @@ pub struct Case {
     /// call history: the same query is first put to this other robot (results ignored); answers must not depend on it
     #[serde(default)]
     pub other: Option<RobotSpec>,
+    /// hand the requested rotation over in its other quaternion representative (-q: negative scalar part, the same rotation)
+    #[serde(default)]
+    pub neg_q: bool,
 }
 
 pub const ENTRY_NAMES: [&str; 4] = ["inverse", "inverse_continuing", "inverse_5dof", "inverse_continuing_5dof"];
@@ -61,7 +64,7 @@ impl Property for C01 {
     }
     fn rule(&self) -> String {
         "robots: all families (catalogue, realistic, negative, degenerate; 64 sign patterns; offsets; dof 5/6) x poses (model FK of a joint vector; wrist-singular q5=k*pi+delta; \
-         elbow stretched; wrist centre on/near the J1 axis; moved outwards beyond reach; raw SE(3) incl. +-1e3 m; NaN/inf/1e300/subnormal components) x previous (source, random in +-2pi, +-100, \
+         elbow stretched; wrist centre on/near the J1 axis; moved outwards beyond reach; raw SE(3) incl. +-1e3 m; NaN/inf/1e300/subnormal components) x rotation handed over as q or -q x previous (source, random in +-2pi, +-100, \
          CONSTRAINT_CENTERED) x four entry points. Non-trivial: at least one solution was returned (each is verified through oracle M) or the pose is from a degenerate class \
          (singular/stretched/axis/outwards/non-finite). Distinct = distinct serialized cases."
             .into()
@@ -80,8 +83,8 @@ impl Property for C01 {
         crate::selftest::model_vs_recorded()
     }
     fn strategy(&self, _tier: Tier) -> BoxedStrategy<Case> {
-        (robot_any(DofChoice::Both), pose_any(), prev_any(), 0u8..4, prop_oneof![Just(0.0), -10.0..10.0f64], prop_oneof![3 => Just(None), 1 => robot_any(DofChoice::Both).prop_map(Some)])
-            .prop_map(|(robot, pose, prev, entry, j6, other)| Case { robot, pose, prev, entry, j6, other })
+        (robot_any(DofChoice::Both), pose_any(), prev_any(), 0u8..4, prop_oneof![Just(0.0), -10.0..10.0f64], prop_oneof![3 => Just(None), 1 => robot_any(DofChoice::Both).prop_map(Some)], prop::bool::weighted(0.25))
+            .prop_map(|(robot, pose, prev, entry, j6, other, neg_q)| Case { robot, pose, prev, entry, j6, other, neg_q })
             .boxed()
     }
     fn check(&self, c: &Case, ctx: &mut Ctx) -> Res {
@@ -92,13 +95,26 @@ impl Property for C01 {
         ctx.class(c.pose.class());
         ctx.class(&format!("entry:{}", ENTRY_NAMES[(c.entry % 4) as usize]));
         let k = opw(r);
-        let na = c.pose.na(r);
+        let mut na = c.pose.na(r);
+        if c.neg_q {
+            na.rotation = nalgebra::UnitQuaternion::new_unchecked(-na.rotation.into_inner());
+            ctx.class("request rotation given as -q");
+        }
         let src = c.pose.source_joints(r);
         let prev = c.prev.resolve(src);
         let what = ENTRY_NAMES[(c.entry % 4) as usize];
         if let Some(o) = &c.other {
             let ko = opw(o);
             let _ = call_entry(&ko, c.entry % 4, &na, &prev, c.j6).map_err(|m| viol!("inverse kinematics never panics", "{} on the other robot panicked: {}", what, m))?;
+            // ... and the same robot was asked for the same pose through another entry point with other previous joints / J6
+            let mut p2 = prev;
+            for t in 0..6 {
+                if p2[t].is_finite() {
+                    p2[t] += 0.37 * (t as f64 + 1.0);
+                }
+            }
+            let _ = call_entry(&k, (c.entry + 1) % 4, &na, &p2, c.j6 + 0.61).map_err(|m| viol!("inverse kinematics never panics", "{} panicked: {}", ENTRY_NAMES[((c.entry + 1) % 4) as usize], m))?;
+            let _ = call_entry(&k, c.entry % 4, &na, &p2, c.j6 + 0.61).map_err(|m| viol!("inverse kinematics never panics", "{} panicked: {}", what, m))?;
             ctx.class("history:another robot answered the same query first");
         }
         let sols = call_entry(&k, c.entry % 4, &na, &prev, c.j6).map_err(|m| viol!("inverse kinematics never panics", "{} panicked: {}", what, m))?;
